@@ -29,6 +29,8 @@ pub const GRAMMARS: &[(&str, &str)] = &[
     ("g3-conflict-expect-ok", "%start Expr\n%expect 2\n%%\nExpr -> u64: Expr \"+\" Expr { $1 + $3 } | Expr \"*\" Expr { $1 * $3 } | \"(\" Expr \")\" { $2 } | \"INT\" { 0 } ;\n"),
     ("g4-conflict-expect-wrong", "%start Expr\n%expect 1\n%%\nExpr -> u64: Expr \"+\" Expr { $1 + $3 } | Expr \"*\" Expr { $1 * $3 } | \"(\" Expr \")\" { $2 } | \"INT\" { 0 } ;\n"),
     ("g5-unused-token-warning", "%start Expr\n%token UNUSED\n%%\nExpr -> u64: Expr \"+\" Term { $1 + $3 } | Term { $1 } ;\nTerm -> u64: Term \"*\" Factor { $1 * $3 } | Factor { $1 } ;\nFactor -> u64: \"(\" Expr \")\" { $2 } | \"INT\" { 0 } ;\n"),
+    ("g7-same-tokens-other-ids", "%start Expr\n%token \"INT\" \")\" \"(\" \"*\" \"+\"\n%%\nExpr -> u64: Expr \"+\" Term { $1 + $3 } | Term { $1 } ;\nTerm -> u64: Term \"*\" Factor { $1 * $3 } | Factor { $1 } ;\nFactor -> u64: \"(\" Expr \")\" { $2 } | \"INT\" { 0 } ;\n"),
+    ("g8-same-tokens-other-ids-2", "%start Expr\n%token \"*\" \"+\" \"INT\" \"(\" \")\"\n%%\nExpr -> u64: Expr \"+\" Term { $1 + $3 } | Term { $1 } ;\nTerm -> u64: Term \"*\" Factor { $1 * $3 } | Factor { $1 } ;\nFactor -> u64: \"(\" Expr \")\" { $2 } | \"INT\" { 0 } ;\n"),
     ("g6-comment-only-change", "%start Expr\n%%\n// a comment\nExpr -> u64: Expr \"+\" Term { $1 + $3 } | Term { $1 } ;\nTerm -> u64: Term \"*\" Factor { $1 * $3 } | Factor { $1 } ;\nFactor -> u64: \"(\" Expr \")\" { $2 } | \"INT\" { 0 } ;\n"),
 ];
 pub const BROKEN_GRAMMARS: &[(&str, &str)] = &[
